@@ -91,10 +91,18 @@ class Session:
         counterexamples and for translator validation."""
         self._natives.setdefault(id(ctx), []).append({"key": key, "args": list(args), "outs": [_b2i(o) for o in outs], "panic": panic, "pre": pre})
 
-    def prove(self, ctx, ob, name, assumptions, goal, timeout_s=None, extra=None):
-        """assert side /\ assumptions /\ not goal ; expect unsat"""
+    def prove(self, ctx, ob, name, assumptions, goal, timeout_s=None, extra=None, small=None):
+        """assert side /\ assumptions /\ not goal ; expect unsat.
+        `small`: extra assumptions confining the query to a small sub-domain; used only when the unbounded query is not decided
+        (a `sat` inside the sub-domain is still a counterexample of the unbounded claim; `unsat` there leaves the item inconclusive)"""
         asserts = list(ctx.side) + list(assumptions) + [T.not_(goal)]
         qr = smt.check(name, ctx.decls, ctx.uf_decls, asserts, timeout_s or self.timeout_s)
+        if qr.verdict == "inconclusive" and small:
+            q2 = smt.check(name + "!small", ctx.decls, ctx.uf_decls, asserts + list(small), min(timeout_s or self.timeout_s, 120))
+            self.aux_queries += 1
+            self.aux_time += q2.time_s
+            if q2.verdict == "sat":
+                qr = q2
         ex = {"natives": self._natives.setdefault(id(ctx), []), "goal_term": goal, "assumptions_terms": list(assumptions),
               "side_terms": list(ctx.side)}
         if extra:
